@@ -94,7 +94,10 @@ func strCapitalizeFunc(_ *ctx.EvalCtx, receiver object.Object, _ ...object.Objec
 		return &object.Str{Value: ""}, nil
 	}
 
-	newVal := strings.ToUpper(val[:1]) + val[1:]
+	// the first character can be longer than one byte
+	_, size := utf8.DecodeRuneInString(val)
+
+	newVal := strings.ToUpper(val[:size]) + val[size:]
 
 	return &object.Str{Value: newVal}, nil
 }
